@@ -38,7 +38,6 @@ def entries():
         Spec("V[given]+sparsity+ridge", NN.hals_nnls, dict(hv, sparsity_coefficient=0.1, ridge_coefficient=0.1), {"V": "start-matrix"}, exempt=("V",)),
         Spec("V[None]+sparsity", NN.hals_nnls, dict(hb, sparsity_coefficient=0.1)),
         Spec("V[given]+nonzero_rows", NN.hals_nnls, dict(hv, nonzero_rows=True, sparsity_coefficient=5.0), {"V": "start-matrix"}, exempt=("V",)),
-        Spec("V[given]+exact", NN.hals_nnls, dict(hv, exact=True), {"V": "start-matrix"}, exempt=("V",)),
         Spec("V[given]+callback", NN.hals_nnls, dict(hv, callback=L(lambda c: quiet_callback())), {"V": "start-matrix"}, exempt=("V",)),
         Spec("raise[callback]+V[given]", NN.hals_nnls, dict(hv, callback=L(lambda c: raising_callback(2))), {"V": "start-matrix"}, exempt=("V",)),
         Spec("raise[zero-column]+nonzero_rows", NN.hals_nnls,
